@@ -600,6 +600,74 @@ def collapse_locals(toks):
     return " ".join(out + ["k:END_LOCAL", "s:;"])
 
 
+def typedecl_slices(toks):
+    """{name: tokens of one TYPE … END_TYPE ; declaration}"""
+    out, i = {}, 0
+    while i < len(toks):
+        if toks[i] == K("TYPE") and i + 1 < len(toks) and toks[i + 1][0] == "id":
+            j = i
+            while toks[j] != K("END_TYPE"):
+                j += 1
+            out.setdefault(toks[i + 1][1].lower(), toks[i:j + 2])
+            i = j + 2
+        else:
+            i += 1
+    return out
+
+
+def enc_typedecl(name, d):
+    ty = d["type"]
+    if ty[0] == "enum": body = f"EN {len(ty[1])} " + " ".join(hx(x) for x in ty[1])
+    elif ty[0] == "select": body = f"SL {len(ty[1])} " + " ".join(hx(x) for x in ty[1])
+    else: body = "T " + enc_ty(ty)
+    return " ".join([hx(name), body, str(len(d["where"]))] + [hx(l) if l else "-" for l, _ in d["where"]])
+
+
+def collapse_typedecl(toks):
+    p = P(toks); out = []
+    p.eat(K("TYPE")); out += ["k:TYPE", "i:" + p.ident()]; p.eat(("op", "eq")); out.append("s:=")
+    if p.at(K("ENUMERATION")) or p.at(K("SELECT")):
+        a = p.i; p.type_()
+        for t in p.t[a:p.i]:
+            out.append("k:" + t[1] if t[0] == "skw" else "i:" + t[1].lower() if t[0] == "id" else "s:" + t[1])
+    else:
+        a = p.i; p.type_(); out.append(collapse(p.t[a:p.i]))
+    p.eat(S(";")); out.append("s:;")
+    if p.opt(K("WHERE")):
+        out.append("k:WHERE")
+        while not p.at(K("END_TYPE")):
+            if p.peek()[0] == "id" and p.peek(1) == S(":"):
+                out += ["i:" + p.ident(), "s::"]; p.eat()
+            p.expr_until(S(";")); p.eat(S(";")); out += ["E", "s:;"]
+    p.eat(K("END_TYPE")); p.eat(S(";")); out += ["k:END_TYPE", "s:;"]
+    return " ".join(out)
+
+
+def const_block(toks):
+    """tokens of the first CONSTANT … END_CONSTANT ; block (the schema's own: exppp prints it first), or None"""
+    for i, t in enumerate(toks):
+        if t in (K("ENTITY"), K("TYPE"), K("FUNCTION"), K("PROCEDURE"), K("RULE")):
+            return None
+        if t == K("CONSTANT"):
+            j = i
+            while toks[j] != K("END_CONSTANT"):
+                j += 1
+            return toks[i:j + 2]
+    return None
+
+
+def collapse_consts(toks):
+    """-> (names in printed order, the driver's token text)"""
+    p = P(toks); out = ["k:CONSTANT"]; names = []
+    p.eat(K("CONSTANT"))
+    while not p.at(K("END_CONSTANT")):
+        n = p.ident(); names.append(n); p.eat(S(":"))
+        a = p.i; p.type_(); out += ["i:" + n, "s::", collapse(p.t[a:p.i])]
+        p.eat(S(":=")); p.expr_until(S(";")); p.eat(S(";")); out += ["s::=", "E", "s:;"]
+    p.eat(K("END_CONSTANT")); p.eat(S(";")); out += ["k:END_CONSTANT", "s:;"]
+    return names, " ".join(out)
+
+
 def entity_slices(toks):
     """{name: tokens of one ENTITY … END_ENTITY ; declaration}"""
     out, i = {}, 0
